@@ -114,15 +114,4 @@ def run(ctx):
 
 
 def replay(ctx, path):
-    obj = json.load(open(path))
-    ops = obj.get("ops", [])
-    vlib.lake_build(["drv_c19"])
-    h = vlib.build_harness("c19")
-    rc, out_i, err = vlib.run_exe(h, "\n".join(ops) + "\n")
-    rc2, out_m, err2 = vlib.run_exe(vlib.driver("drv_c19"), "\n".join(ops) + "\n")
-    print("ops:\n  " + "\n  ".join(ops))
-    print("implementation:\n  " + "\n  ".join(out_i.strip().split("\n")))
-    print("model:\n  " + "\n  ".join(out_m.strip().split("\n")))
-    bad = "ORACLE" in out_i or [l for l in out_i.split("\n") if l and not l.startswith("ORACLE")] != [strip_branch(l) for l in out_m.split("\n") if l]
-    print("REPRODUCED" if bad else "not reproduced")
-    return 1 if bad else 0
+    return vlib.generic_replay(ctx, path, "c19", "drv_c19")
